@@ -348,6 +348,33 @@ func TestC06BlockMutations(t *testing.T) {
 				}
 				structural = structural || m.Struct
 			}
+			// Sometimes the type string of a column is replaced by a hostile one (typed targets pass
+			// it to Infer before any check): re-encode the block with that type name and no data.
+			if rapid.IntRange(0, 5).Draw(rt, "hostile-type-string") == 0 {
+				bad := gen.MalformedType(rt)
+				hb := refBlock(cols, ref.BlockInfo{BucketNum: -1})
+				i := rapid.IntRange(0, len(cols)-1).Draw(rt, "which-column")
+				he := &ref.Enc{NoMap: true}
+				if rev >= ref.RevBlockInfo {
+					ref.EncodeBlockInfo(he, hb.Info)
+				}
+				he.UVarint(uint64(len(cols)), ref.RCount)
+				he.UVarint(0, ref.RCount)
+				for j, col := range cols {
+					he.Str([]byte(col.Name), ref.RName)
+					tn := col.Kind.T.Name
+					if j == i {
+						tn = bad
+					}
+					he.Str([]byte(tn), ref.RName)
+					if rev >= ref.RevCustomSerialization {
+						he.Byte(0, ref.RFlag)
+					}
+				}
+				data = he.B
+				mut = gen.Mutation{Desc: fmt.Sprintf("type string of column %d replaced by %q", i, bad), Struct: true, Role: "name"}
+				structural = true
+			}
 			c := decodeCase{Rev: rev, Hex: hex.EncodeToString(data)}
 			for _, col := range cols {
 				c.Names = append(c.Names, col.Name)
